@@ -116,7 +116,7 @@ Proof.
   intros c t d n a. unfold do_get; cbv zeta.
   destruct (lookup d n) as [v|] eqn:L; simpl.
   - led; lia.
-  - destruct (t_kind t); [apply getattr_trait_balanced | simpl; led; lia].
+  - destruct (t_kind t); [apply getattr_trait_balanced | simpl; led; lia | apply getattr_trait_balanced].
 Qed.
 
 Lemma setattr_event_balanced : forall c t d v, balanced d [] (setattr_event c t d v).
@@ -228,13 +228,38 @@ Qed.
 (* Every operation, succeeding or failing, on every configuration and state: the net effect of all
    INCREF/DECREF of the path on any object a is exactly the change of the number of references the
    state holds to a, plus the reference handed to the caller. *)
+Lemma getattr_prop_balanced : forall c t d n, balanced d [] (getattr_prop c t d n).
+Proof.
+  intros c t d n a. unfold getattr_prop; cbv zeta.
+  destruct (t_dflt t) as [x | [x|]]; simpl; led; lia.
+Qed.
+
+Lemma run_setter_ledger : forall c t d n v l d' ok l' a, run_setter c t d n v l = (d', ok, l') ->
+  net l' a = net l a + occ d' a - occ d a.
+Proof.
+  intros c t d n v l d' ok l' a H. unfold run_setter in H. destruct (t_post t); inversion H; subst; led; lia.
+Qed.
+
+Lemma setattr_prop_balanced : forall c t d n v, balanced d [] (setattr_prop c t d n v).
+Proof.
+  intros c t d n v a. unfold setattr_prop; cbv zeta.
+  destruct (t_has_validate t) eqn:HV.
+  - destruct (validate t v []) as [[w e] l1] eqn:V.
+    pose proof (validate_ledger _ _ _ _ _ _ a V) as HVl.
+    destruct w as [w|]; [|simpl; led; lia].
+    destruct (run_setter c t d n w l1) as [[d' ok] l2] eqn:S.
+    pose proof (run_setter_ledger _ _ _ _ _ _ _ _ _ a S) as HS. simpl; led; lia.
+  - destruct (run_setter c t d n v []) as [[d' ok] l2] eqn:S.
+    pose proof (run_setter_ledger _ _ _ _ _ _ _ _ _ a S) as HS. simpl; led; lia.
+Qed.
+
 Lemma do_op_balanced : forall c d o, balanced d [] (do_op c d o).
 Proof.
   intros c d o. destruct o as [n v | n | n]; unfold do_op; destruct (tlookup (c_traits c) n) as [t|];
     try (intro a; simpl; led; lia).
-  - destruct (t_kind t); [apply setattr_trait_balanced | apply setattr_event_balanced].
-  - apply do_get_balanced.
-  - destruct (t_kind t); [apply delattr_trait_balanced | intro a; simpl; led; lia].
+  - destruct (t_kind t); [apply setattr_trait_balanced | apply setattr_event_balanced | apply setattr_prop_balanced].
+  - destruct (t_kind t); [apply do_get_balanced | apply do_get_balanced | apply getattr_prop_balanced].
+  - destruct (t_kind t); [apply delattr_trait_balanced | intro a; simpl; led; lia | intro a; simpl; led; lia].
 Qed.
 
 Lemma refdelta : forall c d o a,
@@ -282,8 +307,14 @@ Proof.
     + unfold setattr_event. destruct (validate t v []) as [[[w|] e] l1]; simpl; try discriminate.
       destruct (has_notifiers t); simpl; try discriminate.
       destruct (call_notifiers c t true A_NONE w l1) as [[[|] k] l2]; simpl; discriminate.
-  - unfold do_get. destruct (lookup d n); simpl; try discriminate.
-    destruct (t_kind t); simpl; try discriminate. apply getattr_trait_no_crash.
+    + unfold setattr_prop, run_setter; cbv zeta.
+      destruct (t_has_validate t); [destruct (validate t v []) as [[[w|] e] l1]|]; simpl; try discriminate;
+        destruct (t_post t); simpl; discriminate.
+  - assert (G : r_out (do_get c t d n) <> Crashed).
+    { unfold do_get. destruct (lookup d n); simpl; try discriminate.
+      destruct (t_kind t); simpl; try discriminate; apply getattr_trait_no_crash. }
+    destruct (t_kind t); try exact G.
+    unfold getattr_prop; cbv zeta. destruct (t_dflt t) as [x | [x|]]; simpl; discriminate.
   - destruct (t_kind t); simpl; try discriminate.
     unfold delattr_trait. destruct (lookup d n) as [o|]; simpl; try discriminate.
     destruct (has_notifiers t); simpl; try discriminate.
